@@ -20,6 +20,7 @@ SPECIAL = [
     '/-/-/-/\n',                                              # the escape token as a scalar document
     'a: 1\n---\n/-/-/-/\n---\nb: 2\n',
     'body: |\n  a\n  ---\n  b\n   --- \n',                    # indented / padded terminator-like lines
+    '# only a comment\n', 'null\n', '~\n', '---\n# a marker and a comment\n', '# c1\n\n# c2\n',   # valid documents without a content node
     'cert: ' + 'QUJD' * 17000 + '\nafter: 1\n',               # one line of 68 KB (a base64 blob): beyond bufio's default token limit
 ]
 # new documents for the update path
